@@ -72,7 +72,7 @@ open Lean
   let mods := env.header.moduleNames
   for i in [0:mods.size] do
     let m := mods[i]!
-    if m == `ArcheProofs.Props.%s then
+    if (%s).contains m then
       let md := env.header.moduleData[i]!
       for n in md.constNames do
         if n.isInternal then continue
@@ -120,14 +120,19 @@ def lean_obligations(pid, work):
         for i, l in enumerate(strip_comments(open(f).read()).split("\n")):
             if FORBIDDEN.search(l):
                 bad.append("%s:%d: %s" % (f, i + 1, l.strip()))
-    ok, out = vlib.lake_build(["ArcheProofs.Props." + pid, "model", "gencheck"])
+    # the property's modules: Props/<ID>.lean plus world-level companions Props/<ID>_*.lean
+    import glob as _glob
+    mods = ["ArcheProofs.Props." + pid] + sorted("ArcheProofs.Props." + os.path.basename(f)[:-5]
+                                                 for f in _glob.glob(os.path.join(LEAN, "ArcheProofs", "Props", pid + "_*.lean")))
+    cov["modules"] = mods
+    ok, out = vlib.lake_build(mods + ["model", "gencheck"])
     if not ok:
         errs = "\n".join(l for l in out.split("\n") if "error" in l or "rror:" in l)[:4000]
         found = search_failing_input(pid, work, "lake build ArcheProofs.Props.%s failed — a theorem (or a regenerated definition it is about) no longer checks:\n%s\n\nfull log tail:\n%s" % (pid, errs, out[-3000:]))
         viol.append(found)
         return {"coverage": cov, "violations": viol}
     audit = os.path.join(LEAN, "Audit_%s_%d.lean" % (pid, os.getpid()))
-    open(audit, "w").write("import Lean\nimport ArcheProofs.Props.%s\n" % pid + AUDIT_BODY % pid)
+    open(audit, "w").write("import Lean\n" + "".join("import %s\n" % m for m in mods) + AUDIT_BODY % ("[" + ", ".join("`" + m for m in mods) + "]"))
     try:
         rc, out = vlib.run(["lake", "env", "lean", audit], cwd=LEAN)
     finally:
